@@ -157,11 +157,25 @@ def check_r182(fx, rep, size_fn):
                         continue
                     seen.add(V)
                     vk = kinds.get(V, {})
-                    # field -> local for this arm (or-patterns: require single variant for child-bearing ones)
+                    # field -> local for this arm. In an or-pattern every alternative binds the same names; uses refer to the
+                    # bindings of the first alternative, so fields are mapped through the binding *name*.
                     if len(pv) > 1 and any(vk.values()):
-                        rep.oblige(False, "R18.2", f"{kind}:{V}", w, f"or-pattern arm covers `{V}` which has children (unrecognised idiom)")
-                        continue
-                    f2l = {path[-1][1]: lid for lid, (nm, path) in binds_all.items() if path}
+                        if kind == "rebuild":
+                            rep.oblige(False, "R18.2", f"{kind}:{V}", w, f"or-pattern arm covers `{V}` which has children: one arm cannot rebuild two different variants (unrecognised idiom)")
+                            continue
+                        alts = arm["pat"]["pats"] if arm["pat"].get("p") == "Or" else [arm["pat"]]
+                        canon = {}
+                        for alt in alts:
+                            for lid, (nm, path) in F.pat_bindings(alt).items():
+                                canon.setdefault(nm, lid)
+                        mine = next((alt for alt in alts if (F.pat_variants(alt) or set()) == {(SVD, V)}), None)
+                        f2l = {}
+                        if mine is not None:
+                            for lid, (nm, path) in F.pat_bindings(mine).items():
+                                if path:
+                                    f2l[path[-1][1]] = canon.get(nm, lid)
+                    else:
+                        f2l = {path[-1][1]: lid for lid, (nm, path) in binds_all.items() if path}
                     key = f"{kind}:{F.strip_generics(b['def']).split('::')[-1]}:{V}"
                     if kind in ("sum", "list"):
                         ok = True
@@ -369,6 +383,46 @@ def check_r183(fx, rep, cg):
             rep.oblige(ok, "R18.3", f"builder:{b['name']}", F.loc(b["span"]), f"ValueBuilder::{b['name']} does not pass Some(config.value_size_limit) to the value constructor")
 
 
+def check_limit_writers(fx, rep, rule=rule, limit_field="value_size_limit"):
+    """The limit the builder reads is the field `value_size_limit` of the VM configuration. Who writes it: the struct literal
+    of the default configuration and exactly one builder-style setter; setters of the configuration are injective (no two of
+    them write the same field), so configuring another parameter can never change the limit."""
+    CFG = "vm::Config"
+    adt = fx.adt(CFG)
+    if not rep.anchor(rule, adt is not None, "the VM configuration type"):
+        return
+    setters = {}
+    for b in fx.fn_bodies():
+        if b.get("impl_self") != CFG or not b.get("hir"):
+            continue
+        fn = fx.fns.get(b["def"], {})
+        if (fn.get("output") or "") not in ("Self", CFG):
+            continue
+        written = []
+        for n, _ in F.walk(b["hir"]["value"]):
+            if n.get("k") in ("Assign", "AssignOp") and n["l"].get("k") == "Field" and F.local_of(F.strip(n["l"]["e"])) is not None:
+                written.append(n["l"]["field"])
+        if written:
+            setters[b["def"]] = written
+            rep.fn(b["def"])
+    by_field = {}
+    for fn_name, fields in setters.items():
+        for f in fields:
+            by_field.setdefault(f, []).append(fn_name.split("::")[-1])
+    clash = {f: sorted(v) for f, v in by_field.items() if len(v) > 1}
+    multi = {k.split("::")[-1]: v for k, v in setters.items() if len(set(v)) > 1}
+    rep.oblige(
+        not clash and not multi,
+        rule,
+        "config-setters-injective",
+        F.loc(adt["span"]),
+        f"configuration setters are not one-to-one with fields (several setters write {clash}; setters writing several fields {multi}): setting one parameter silently changes another — e.g. the value size limit",
+        sample={"rule": rule, "setters": {k.split("::")[-1]: v for k, v in sorted(setters.items())}},
+    )
+    rep.oblige(limit_field in by_field, rule, "limit-has-setter", F.loc(adt["span"]), f"no builder-style setter writes `{limit_field}`: the limit cannot be configured")
+    rep.floor(rule, len(setters), 3, "builder-style setters of the VM configuration")
+
+
 def check_r184(fx, rep):
     """In the limit-taking constructor: the comparison is `child_size(data)+1 > limit` and the substitute is a leaf."""
     found = 0
@@ -429,6 +483,7 @@ def check(fx, rep, tier):
     size_fn = check_r181(fx, rep)
     check_r182(fx, rep, size_fn)
     check_r183(fx, rep, cg)
+    check_limit_writers(fx, rep)
     check_r184(fx, rep)
     rep.exhaustive = True
     return rep.finish(
